@@ -366,6 +366,11 @@ def rendering_spaces(ctx: Ctx):
     for cname in ("ExplicitOrderCollator", "PayloadOrderCollator", "SortByValueCollator"):
         ci = ctx.repo.cls(COL, cname)
         e = expand(ctx.repo, ci, "_display_order", stop=lambda mm: mm.name in keep)
+        # a property looked up BY NAME in a shared helper (`getattr(self, propname)` with the name passed as a literal):
+        # fold it to the attribute read and expand once more
+        from ..symex import Expander, fold
+
+        e = Expander(ctx.repo, ci, lambda mm: mm.name in keep).visit(fold(e))
         where = f"{COL}::{cname} [_display_order renderings]"
         render = signed = None
         if isinstance(e, ast.IfExp) and u(e.test) == "self._format == ORDER_FORMAT.BOGUS_IDS":
@@ -391,7 +396,7 @@ def rendering_spaces(ctx: Ctx):
             where,
             f"negative idx enumerate dimension.{enum_src}; ins_N rendering reads dimension.{map_src}",
             "both renderings index the same subtotal sequence",
-            enum_src == map_src,
+            (enum_src == map_src) if (enum_src and map_src) else None,
             "the signed-index and the 'ins_N' renderings of an order must name the same sequence",
         )
         ctx.count("collator rendering pairs")
